@@ -9,10 +9,13 @@ import (
 	_ "crypto/sha256"
 	_ "crypto/sha512"
 	"crypto/x509"
+	"encoding/asn1"
 	"encoding/base64"
+	"encoding/hex"
 	"encoding/json"
 	"fmt"
 	"io"
+	"math/big"
 	"os"
 	"path/filepath"
 	"time"
@@ -239,4 +242,69 @@ func buildCOSE(payload []byte, cty, key string, chain [][]byte, sign func([]byte
 func fatal(msg string) {
 	fmt.Fprintln(os.Stderr, "c18 harness:", msg)
 	os.Exit(3)
+}
+
+// sigEncodings are the wire forms of the signature bytes other than the one the plugin contract names ("fixed").
+var sigEncodings = []string{"der", "derWideR", "derWideS", "derHuge", "derNegative", "derZero", "derTrailing", "derTruncated",
+	"padded", "truncated", "extended", "doubled", "oneByte", "b64", "hex"}
+
+// encodeSig writes a signature (RSASSA-PSS octets, or ECDSA r||s) in another wire form. The two halves of the
+// octets are taken as the integers r and s (for ECDSA they are; for RSA it is just a way to write the octets).
+func encodeSig(enc string, sig []byte) []byte {
+	if enc == "" || enc == "fixed" {
+		return sig
+	}
+	h := len(sig) / 2
+	r, s := new(big.Int).SetBytes(sig[:h]), new(big.Int).SetBytes(sig[h:])
+	seq := func(r, s *big.Int) []byte {
+		b, err := asn1.Marshal(struct{ R, S *big.Int }{r, s})
+		if err != nil {
+			fatal("encodeSig: " + err.Error())
+		}
+		return b
+	}
+	wide := new(big.Int).Lsh(big.NewInt(1), uint(8*(len(sig)-h))) // one bit more than a half can hold
+	switch enc {
+	case "der":
+		return seq(r, s)
+	case "derWideR":
+		return seq(wide, s)
+	case "derWideS":
+		return seq(r, wide)
+	case "derHuge":
+		return seq(new(big.Int).Lsh(big.NewInt(1), uint(16*len(sig)+599)), big.NewInt(1))
+	case "derNegative":
+		return seq(new(big.Int).Neg(new(big.Int).Add(r, big.NewInt(1))), s)
+	case "derZero":
+		return seq(big.NewInt(0), big.NewInt(0))
+	case "derTrailing":
+		return append(seq(r, s), 0x00)
+	case "derTruncated":
+		b := seq(r, s)
+		return b[:len(b)-1]
+	case "padded":
+		out := append([]byte{0}, sig[:h]...)
+		out = append(out, 0)
+		return append(out, sig[h:]...)
+	case "truncated":
+		if len(sig) == 0 {
+			return []byte{}
+		}
+		return append([]byte(nil), sig[:len(sig)-1]...)
+	case "extended":
+		return append(append([]byte(nil), sig...), 0x00)
+	case "doubled":
+		return append(append([]byte(nil), sig...), sig...)
+	case "oneByte":
+		if len(sig) == 0 {
+			return []byte{0x30}
+		}
+		return []byte{sig[0]}
+	case "b64":
+		return []byte(base64.StdEncoding.EncodeToString(sig))
+	case "hex":
+		return []byte(hex.EncodeToString(sig))
+	}
+	fatal("encodeSig: " + enc)
+	return nil
 }
